@@ -13,7 +13,7 @@ var scopeSets = [][]string{
 	{"openid", "offline_access"}, {"openid", "profile", "email", "offline_access"},
 }
 
-var issueClients = []string{"web", "web2", "native", "spa", "web", "web2", "webx", "web2x", "webnr", "web2nx"}
+var issueClients = []string{"web", "web2", "native", "spa", "web", "web2", "webx", "web2x", "webnr", "web2nx", "pkjwt"}
 
 func (w *World) Router(fixed opfix.Router, mixed bool) opfix.Router {
 	if mixed && w.R.Chance(1, 2) {
@@ -70,7 +70,7 @@ func (w *World) someID(prefix string) string {
 func (w *World) Adversarial() *Tok {
 	opq := w.PoolOf("opaque-at")
 	jwts := w.PoolOf("jwt-at", "idtok")
-	switch w.R.IntN(12) {
+	switch w.R.IntN(13) {
 	case 0, 1:
 		if len(opq) > 0 {
 			return w.Flip(drv.Pick(w.R, opq))
@@ -110,6 +110,12 @@ func (w *World) Adversarial() *Tok {
 			}
 			return &Tok{S: string(b), Kind: "tampered-jwt-sig", jwt: &d}
 		}
+	case 11: // a third-party token: valid in one role, both or none, if the storage verifies such tokens at all
+		return w.ExtTok("SABN"[w.R.IntN(4)], drv.Pick(w.R, Subjects))
+	case 10:
+		if w.R.Chance(1, 2) { // keyword-like literals are opaque strings like any other
+			return &Tok{S: drv.Pick(w.R, Keywords), Kind: "keyword"}
+		}
 	}
 	return w.Garbage()
 }
@@ -143,7 +149,13 @@ func (w *World) CredAround(owner string, basicOnly bool) (Cred, string) {
 		}
 		return GoodCred(id)
 	}
-	switch k := w.R.IntN(26); {
+	switch k := w.R.IntN(34); {
+	case k >= 26: // a caller that names a registered client without proving that client's credential
+		target := owner
+		if w.R.Chance(1, 4) {
+			target = drv.Pick(w.R, others)
+		}
+		return w.Unproven(target)
 	case k >= 20: // two identities in one request: a verified credential of X plus client_id=Y in the form
 		w.tag("twoid=1")
 		other := drv.Pick(w.R, []string{"web", "web2", "webx", "web2x", "pkjwt"})
@@ -235,6 +247,9 @@ func naturalType(t *Tok) string {
 	if t.jwt != nil && t.jwt.jti == "" {
 		return "TId"
 	}
+	if strings.HasPrefix(t.Kind, "ext-") {
+		return "TJwt"
+	}
 	return "TAccess"
 }
 
@@ -320,4 +335,90 @@ func (w *World) PublicCred() Cred {
 		return Cred{Kind: "both", ID: id, Sec: "anything", FormID: "web"}
 	}
 	return Cred{Kind: "post", ID: id}
+}
+
+// keyword-like literals that must stay opaque values
+var Keywords = []string{"null", "NULL", "nil", "undefined", "true", "false", "0", "[]", "{}"}
+
+var blanks = []string{" ", "\t", "\r\n", "\n", "  "}
+
+// Unproven: every way a request can name the registered client id (confidential, public or
+// private_key_jwt) WITHOUT proving a credential registered for it - nothing besides the id, an
+// empty secret (left out, present-but-empty, in a Basic header), white space, near misses of the
+// registered secret (surrounding white space, other case, a prefix, another client's secret),
+// keyword-like literals, near misses of the client id with the right secret.
+func (w *World) Unproven(id string) (Cred, string) {
+	c := ClientByID(id)
+	sec := ""
+	if c != nil && c.Secret != NoSecret {
+		sec = c.Secret
+	}
+	if sec == "" && w.R.Chance(1, 2) { // nothing to miss nearly: the empty / blank family
+		switch w.R.IntN(5) {
+		case 0:
+			return Cred{Kind: "basic", ID: id}, "unproven-basic-empty"
+		case 1:
+			return Cred{Kind: "basic", ID: id, Sec: drv.Pick(w.R, blanks)}, "unproven-basic-blank"
+		case 2:
+			return Cred{Kind: "post", ID: id, EmptyParam: true}, "unproven-post-empty-param"
+		case 3:
+			return Cred{Kind: "post", ID: id, Sec: drv.Pick(w.R, blanks)}, "unproven-post-blank"
+		}
+		return Cred{Kind: "both", ID: id, FormID: drv.Pick(w.R, []string{"web", "web2", id})}, "unproven-basic-empty+form-id"
+	}
+	kind := drv.Pick(w.R, []string{"basic", "basic", "post"})
+	switch w.R.IntN(12) {
+	case 0:
+		return Cred{Kind: "basic", ID: id}, "unproven-basic-empty"
+	case 1:
+		return Cred{Kind: kind, ID: id, Sec: drv.Pick(w.R, blanks)}, "unproven-" + kind + "-blank"
+	case 2:
+		return Cred{Kind: "post", ID: id, EmptyParam: w.R.Bool()}, "unproven-id-only"
+	case 3:
+		return Cred{Kind: kind, ID: id, Sec: drv.Pick(w.R, Keywords)}, "unproven-" + kind + "-keyword"
+	case 4:
+		if sec != "" {
+			b := drv.Pick(w.R, blanks)
+			return Cred{Kind: kind, ID: id, Sec: drv.Pick(w.R, []string{sec + b, b + sec, b + sec + b})}, "unproven-" + kind + "-secret-padded"
+		}
+	case 5:
+		if sec != "" {
+			return Cred{Kind: kind, ID: id, Sec: drv.Pick(w.R, []string{strings.ToUpper(sec), strings.ToUpper(sec[:1]) + sec[1:], sec[:len(sec)-1], sec + "x", sec + "/"})}, "unproven-" + kind + "-secret-nearmiss"
+		}
+	case 6: // the right secret under a near miss of the id
+		if sec != "" {
+			b := drv.Pick(w.R, blanks)
+			return Cred{Kind: kind, ID: drv.Pick(w.R, []string{strings.ToUpper(id), id + b, b + id, id + "/", strings.ToUpper(id[:1]) + id[1:]}), Sec: sec}, "unproven-" + kind + "-id-nearmiss"
+		}
+	case 7: // another client's secret
+		o := drv.Pick(w.R, []string{"web", "web2", "webx", "webnr"})
+		if o != id {
+			return Cred{Kind: kind, ID: id, Sec: ClientByID(o).Secret}, "unproven-" + kind + "-others-secret"
+		}
+	case 8:
+		return Cred{Kind: "both", ID: id, FormID: drv.Pick(w.R, []string{"web", "web2", id})}, "unproven-basic-empty+form-id"
+	case 9:
+		return Cred{Kind: kind, Sec: drv.Pick(w.R, []string{sec, "x", ""})}, "unproven-" + kind + "-no-id"
+	case 10: // a failing assertion naming the client in the form
+		return Cred{Kind: "assert", ID: drv.Pick(w.R, []string{"pkjwt", id}), Sec: drv.Pick(w.R, []string{"wrong-key", "wrong-aud"}), FormID: id}, "unproven-assertion"
+	}
+	return Cred{Kind: "basic", ID: id, Sec: "wrong-secret"}, "unproven-basic-wrong"
+}
+
+// Lesser: the same caller with its proof left out (what a request after an authenticated one
+// looks like when it carries no credential of its own).
+func (w *World) Lesser(c Cred) Cred {
+	id := c.ID
+	if c.Kind == "assert" && c.FormID != "" {
+		id = c.FormID
+	}
+	switch w.R.IntN(4) {
+	case 0:
+		return Cred{}
+	case 1:
+		return Cred{Kind: "post", ID: id}
+	case 2:
+		return Cred{Kind: "basic", ID: id}
+	}
+	return Cred{Kind: "post", ID: id, EmptyParam: true}
 }
